@@ -55,6 +55,8 @@ type HarnessRun struct {
 	Start    time.Time
 	SolverTime time.Duration
 	MaxDepth int
+	stopped bool
+	StoppedEarly string
 }
 
 type Explorer struct {
@@ -71,6 +73,9 @@ type Explorer struct {
 	stop     bool
 	maxPaths int
 	deadline time.Time
+	failFast bool
+	known    *KnownFile
+	prop     string
 	Warnings map[string]int
 	TotalQueries int
 	TotalSolverTime time.Duration
@@ -202,6 +207,9 @@ func (e *Explorer) runPath(in *Interp, it workItem) {
 	t0 := in.nTrivial
 	st0 := solver0(in)
 	in.onFork = func(prefix []Decision, model map[string]uint64) {
+		if h.stopped {
+			return
+		}
 		e.push(workItem{h: h, prefix: prefix, model: model})
 	}
 	in.onViolation = func(v Violation) {
@@ -210,6 +218,22 @@ func (e *Explorer) runPath(in *Interp, it workItem) {
 		h.violSeen[v.ID]++
 		if h.violSeen[v.ID] <= 3 {
 			h.Violations = append(h.Violations, v)
+		}
+		if e.failFast && !h.stopped && findKnown(e.known, e.prop, h.Name, v.ID) == nil {
+			// an unlisted violation decides the verdict: stop exploring this harness
+			h.stopped = true
+			h.StoppedEarly = "exploration stopped at the first violation that is not a listed known finding"
+			e.mu.Lock()
+			q := e.queue[:0]
+			for _, w := range e.queue {
+				if w.h != h {
+					q = append(q, w)
+				} else {
+					h.pending--
+				}
+			}
+			e.queue = q
+			e.mu.Unlock()
 		}
 	}
 	outcome := "done"
